@@ -66,8 +66,9 @@ type WireReport struct {
 	Findings []SideFinding
 	Obs      map[string]float64
 	// Reassembled payload per session id and direction.
-	Streams   map[uint32]*[2][]byte
-	nonceSeen map[string]bool
+	Streams    map[uint32]*[2][]byte
+	nonceSeen  map[string]bool
+	nonceLater map[string]*[2]int // later packets of a flow: [total, showing a fixed prefix]
 }
 
 func (w *WireReport) add(prop, sig, detail string) {
@@ -373,13 +374,35 @@ func checkNoncePattern(rep *WireReport, s *WSeg, p *appctlpb.TrafficPattern, sid
 		if first && !match {
 			rep.add("C16", "nonce-fixed-prefix-missing", fmt.Sprintf("side %d nonce %x matches none of %v", side, s.Nonce, hs))
 		}
-		if !first && match && long {
-			rep.add("C16", "nonce-fixed-prefix-on-later-packet", fmt.Sprintf("side %d nonce %x shows a configured prefix although applyToAllUDPPacket=false", side, s.Nonce))
+		if !first && long {
+			// A flow's cipher instance can legitimately be replaced (e.g. a
+			// datagram authenticated before the session's cipher was stored),
+			// which shows the prefix once more. Judge the flow as a whole:
+			// "not applied to all packets" is violated only if later packets
+			// show the prefix systematically.
+			if rep.nonceLater == nil {
+				rep.nonceLater = map[string]*[2]int{}
+			}
+			key := fmt.Sprintf("%d/%s", side, s.FlowID)
+			if rep.nonceLater[key] == nil {
+				rep.nonceLater[key] = &[2]int{}
+			}
+			rep.nonceLater[key][0]++
+			if match {
+				rep.nonceLater[key][1]++
+			}
 		}
 	}
 }
 
 func finishStreams(rep *WireReport) {
+	for k, c := range rep.nonceLater {
+		rep.Obs["nonce_later_packets"] += float64(c[0])
+		rep.Obs["nonce_later_with_prefix"] += float64(c[1])
+		if c[0] >= 10 && c[1]*2 >= c[0] {
+			rep.add("C16", "nonce-fixed-prefix-on-later-packets", fmt.Sprintf("flow %s: %d of %d later datagrams show a configured >=8-byte prefix although applyToAllUDPPacket=false", k, c[1], c[0]))
+		}
+	}
 	var n float64
 	for _, st := range rep.Streams {
 		n += float64(len(st[0]) + len(st[1]))
@@ -569,4 +592,36 @@ func analyzeUDP(e *Env, o WireOpts) *WireReport {
 	}
 	finishStreams(rep)
 	return rep
+}
+
+// hubTrace renders the last n hub events decoded, for witnesses.
+func hubTrace(e *Env, o WireOpts, n int) []string {
+	kr := newKeyring(o.Users)
+	hub := e.Hub()
+	if len(hub) > n {
+		hub = hub[len(hub)-n:]
+	}
+	var out []string
+	for _, ev := range hub {
+		keys, _ := kr.around(ev.D.At)
+		seg, err := refcodec.DecodeDatagram(ev.D.Data, keys)
+		desc := fmt.Sprintf("undecodable(%d bytes)", len(ev.D.Data))
+		if err == nil {
+			desc = seg.Meta.String()
+		}
+		dec := ""
+		if ev.Kind == "send" {
+			if ev.Dec.Drop {
+				dec = " DROP"
+			}
+			if ev.Dec.Dup > 0 {
+				dec += " DUP"
+			}
+			if ev.Dec.Delay > 0 {
+				dec += fmt.Sprintf(" DELAY%v", ev.Dec.Delay)
+			}
+		}
+		out = append(out, fmt.Sprintf("%s #%d %s %s->%s %s%s", ev.D.At.Format("05.000"), ev.D.ID, ev.Kind, ev.D.From, ev.D.To, desc, dec))
+	}
+	return out
 }
